@@ -106,16 +106,52 @@ theorem handOver_inbound (w : World) (k h m q : Nat) (hp : w.phase = .up k) (ha 
   simp [handOver, hp, ha, hh]
 
 /-! ### non-vacuity: handler registered before Connect, two connections (the first one lost through a
-    lost PUBACK), messages right behind both CONNACKs, the handler replaced while up -/
+    lost PUBACK; the loop backs off and redials when the timer fires), messages right behind both
+    CONNACKs, the handler replaced while up -/
 
 def demo : Script :=
   { faults := [.lostAck],
     evs := [.handle 7, .start, .dialOk 0, .connackOk false [(5, 1)], .app (.pub 0 1),
-            .dialOk 10, .connackOk true [(6, 0), (8, 1)], .inbound 9 0, .handle 3, .inbound 10 1] }
+            .waitElapsed, .dialOk 10, .connackOk true [(6, 0), (8, 1)], .inbound 9 0, .handle 3, .inbound 10 1] }
 
 example : (exec demo).handled = [(0, 7, 5), (1, 7, 6), (1, 7, 8), (1, 7, 9), (1, 3, 10)] := by decide
 example : (exec demo).conns.length = 2 ∧ (exec demo).phase = .up 1 ∧ (exec demo).handler = some 3 ∧
-    (getConn (exec demo) 0).alive = false ∧ (exec demo).broker.acked = [.pub 0 1] := by decide
+    (getConn (exec demo) 0).alive = false ∧ (exec demo).broker.acked = [.pub 0 1] ∧
+    (exec demo).dials = 2 ∧ (exec demo).waits = [0] := by decide
 example : lastHandle demo.evs = some 3 := by decide
+
+/-- the handler is replaced while the loop is backing off (no connection object is current in the
+    loop's eyes): the connection dialled after the timer carries the new handler -/
+example : let s : Script := { demo with
+      evs := [.handle 7, .start, .dialOk 0, .connackOk false [(5, 1)], .app (.pub 0 1),
+              .handle 3, .inbound 4 0, .waitElapsed, .handle 2, .dialOk 10, .connackOk true [(6, 0)], .inbound 9 0] }
+    (exec s).handled = [(0, 7, 5), (1, 2, 6), (1, 2, 9)] ∧ (getConn (exec s) 1).handler = some 2 := by decide
+
+/-- Disconnect while the loop is backing off: the loop exits, there is no further connection, nothing
+    more is (or could be) handed over -/
+example : let s : Script := { demo with
+      evs := [.handle 7, .start, .dialOk 0, .connackOk false [(5, 1)], .app (.pub 0 1),
+              .disconnect, .waitElapsed, .dialOk 10, .connackOk true [(6, 0)], .inbound 9 0] }
+    (exec s).handled = [(0, 7, 5)] ∧ (exec s).phase = .exited ∧ (exec s).conns.length = 1 := by decide
+
+/-- Disconnect while DialContext is in flight, the dial then succeeds: the connection object is created
+    with the registered handler, and the messages the broker pushes right behind its CONNACK are handed
+    to that handler before the queued Disconnect task closes the connection -/
+example : let s : Script :=
+      { evs := [.handle 7, .start, .disconnect, .dialOk 0, .connackOk false [(5, 1)], .inbound 6 0] }
+    (exec s).handled = [(0, 7, 5)] ∧ (exec s).phase = .exited ∧ (getConn (exec s) 0).handler = some 7 ∧
+    (getConn (exec s) 0).alive = false := by decide
+
+/-- the context given to Connect is cancelled while the CONNACK is outstanding: the connection is
+    closed, Connect returns the error, the late CONNACK (with its messages) is not served -/
+example : let s : Script :=
+      { evs := [.handle 7, .start, .dialOk 0, .cancelCtx, .connackOk false [(5, 1)], .inbound 6 0] }
+    (exec s).handled = [] ∧ (exec s).phase = .exited ∧ (exec s).connectErr = true ∧
+    (getConn (exec s) 0).alive = false := by decide
+
+/-- cancelled once Connect has returned: no effect, the handler keeps following the reconnects -/
+example : (exec { demo with evs := [.handle 7, .start, .dialOk 0, .connackOk false [(5, 1)], .cancelCtx, .app (.pub 0 1),
+            .cancelCtx, .waitElapsed, .dialOk 10, .connackOk true [(6, 0), (8, 1)], .inbound 9 0, .handle 3, .inbound 10 1] }).handled
+    = (exec demo).handled := by decide
 
 end Mqtt.C17
